@@ -368,7 +368,6 @@ KEYS = {
     "if-unary": "F11c `#if`: a unary operator applied to a unary expression or unary minus of a non-positive value (`!!1`, `- -1`, `-(-1)`, `-0 ? :`) is not folded: the condition is 0",
     "if-mix": "F11a/b `#if`: `||` and `&&` (and `==`/`!=` and relational operators) are folded in one left-to-right pass (`1 || 0 && 0` is 0, `2 == 1 < 1` is 1)",
     "if-chain": "F11g `#if`: `a ? b : c ? d : e` with a != 0 continues with `b ? d : e`",
-    "elif-after-taken-group-evaluated": "F11h the condition of `#elif` is evaluated (and its errors reported) although an earlier group of the if-section was taken",
     "va-args-comma-elision": "F11i a `,` before an empty `__VA_ARGS__` followed by `)` is dropped without `##`",
     "stringify-space-after-combined-operator": "F11j `#x` drops the space after an operator token made of two characters (`a == b` gives \"a ==b\")",
     "paste-operand-not-rescanned": "F11l the tokens of a multi-token macro argument next to `##` that are not pasted are not macro replaced afterwards (`#define h(a) x ## a`, `h(y D)` keeps `D`)",
@@ -377,7 +376,7 @@ KEYS = {
 }
 
 
-CODE_Q = ["1111"]      # quirk flags of the working tree, set by detect_variant()
+CODE_Q = ["1101"]      # quirk flags of the code (Quirks.code); elifEval is off since /repo commit 8474bf0
 
 ELIF_ORIG = "if (ifstates.top() == AlwaysFalse || (ifstates.top() == ElseIsTrue && rawtok->str() != ELIF)) {"
 ELIF_FIXED = ("if (ifstates.top() == AlwaysFalse || (ifstates.top() == ElseIsTrue && rawtok->str() != ELIF) || "
@@ -385,21 +384,20 @@ ELIF_FIXED = ("if (ifstates.top() == AlwaysFalse || (ifstates.top() == ElseIsTru
 
 
 def detect_variant(res):
-    """T: which condition guards the evaluation of #if/#elif in simplecpp::preprocess (Quirks.elifEval)?  Fail closed."""
+    """T: the condition that guards the evaluation of #if/#elif in simplecpp::preprocess must be the one of commit 8474bf0
+    (Quirks.elifEval off is the only model of record).  Fail closed."""
     src = open(os.path.join(core.REPO, "externals", "simplecpp", "simplecpp.cpp"), encoding="utf-8", errors="replace").read()
     src = re.sub(r"//[^\n]*", " ", src)
     m = re.search(r"bool conditionIsTrue;\s*(if \(.*?\) \{)\s*conditionIsTrue = false;", src, re.S)
     txt = re.sub(r"\s+", " ", m.group(1)) if m else None
-    if txt == ELIF_ORIG:
-        q = "1111"
-    elif txt == ELIF_FIXED:
-        q = "1101"
+    if txt == ELIF_FIXED:
+        res.oblig("T:elif-guard-shape", True, "translation", "")
+    elif txt == ELIF_ORIG:
+        # the guard of before commit 8474bf0: the model of record (elifEval off) does not describe this code
+        res.oblig("T:elif-guard-shape", False, "translation", "the #if/#elif guard is the one of before commit 8474bf0 (F11h): `#elif` is evaluated after a taken group")
     else:
         res.oblig("T:elif-guard-shape", False, "translation", "unrecognised guard of the #if/#elif evaluation: %r" % (txt,))
-        return
-    res.oblig("T:elif-guard-shape", True, "translation", "")
-    res.extra["quirks_of_working_tree"] = q
-    CODE_Q[0] = q
+    res.extra["quirks_of_model"] = CODE_Q[0]
 
 
 def quirk_keys():
@@ -780,7 +778,7 @@ def replay(ctx, res, rp):
         fail = ib != want
     elif rp.get("kind") == "pp":
         d, u = rp.get("defs", []), rp.get("undefs", [])
-        rc, io, err = core.run_lines(exe, [], ["pp 1111 %s %s %s" % (lst(d), lst(u), hx(rp["src"]))])
+        rc, io, err = core.run_lines(exe, [], ["pp %s %s %s %s" % (CODE_Q[0], lst(d), lst(u), hx(rp["src"]))])
         g, gerr = gcc_pp(rp["src"], d, u)
         o = canon_pp(io[0])
         it = toks_of(o)
